@@ -229,6 +229,27 @@ def aligned_pointer(rng, prev, domain):
         bytes([0xC0 | (b >> 8), b & 0xFF]) + struct.pack(">HH", qt, 1)
 
 
+def trailing_label(rng, prev, domain):
+    """A query whose name is a (forward) compression pointer to a label placed BEHIND type/class at the very end of
+    the datagram; the label's length byte reaches past the end.  With `prev` the overrun is sized so that it ends on a
+    label boundary of the previously received datagram."""
+    cmd = rng.choice([b"z", b"Z", b"v", b"y", b"p", b"0", b"i"])
+    keep = cmd + bytes(rng.choice(b"abcdefghijklmnopqrstuvwxyz012345") for _ in range(rng.randrange(0, 4)))
+    pre = b""
+    if rng.random() < 0.3:
+        pre = bytes([3]) + b"abc"                       # a real label in front of the pointer
+    lab_off = 12 + len(pre) + 2 + 4
+    L = rng.choice([63, 40, 20, len(keep) + 1, len(keep) + 5])
+    if prev is not None:
+        offs = [o for o in label_offsets(prev) if lab_off + 1 + len(keep) < o <= lab_off + 1 + 63]
+        if offs:
+            L = rng.choice(offs) - lab_off - 1
+    L = max(len(keep), min(63, L))
+    qt = rng.choice([D.T_NULL, D.T_TXT, D.T_CNAME, D.T_A, D.T_MX])
+    return hdr(rng.randrange(1, 65536), 0x0100, 1) + pre + bytes([0xC0 | (lab_off >> 8), lab_off & 0xFF]) + \
+        struct.pack(">HH", qt, 1) + bytes([L]) + keep
+
+
 def truncation_family(rng, valid, domain, prev=None):
     """Datagram shapes derived from a valid query `valid`: truncations, and length fields edited so that a label,
     a compression pointer or the fixed question tail reaches exactly to / one past / far past the end."""
@@ -236,6 +257,8 @@ def truncation_family(rng, valid, domain, prev=None):
         d = aligned_pointer(rng, prev, domain)
         if d is not None:
             return d
+    if rng.random() < 0.2:
+        return trailing_label(rng, prev, domain)
     k = rng.randrange(12)
     n = len(valid)
     if valid[:3] == proto.RAW_HDR:
@@ -429,6 +452,14 @@ def answer_truncations(rng, real):
         return real[:rdl_off] + struct.pack(">H", rng.choice([rdlen, rdlen + 50, 4096])) + real[rdl_off + 2:cut]
     if k == 5 and rr.type == D.T_TXT and rdlen > 1:     # first TXT chunk length exceeds the data
         return real[:rr.rdoff] + bytes([255]) + real[rr.rdoff + 1:]
+    if k == 7 and rr.type in (D.T_CNAME, D.T_MX, D.T_SRV, D.T_NS):
+        # rdata fully present but the name inside it is one over-long label: RDLENGTH and every length check agree,
+        # only the label runs past the end of the datagram
+        fixed = 2 if rr.type == D.T_MX else 6 if rr.type == D.T_SRV else 0
+        pre = real[rr.rdoff:rr.rdoff + fixed]
+        lab = bytes([rng.choice([63, 40, 12])]) + rng.choice([b"h", b"i", b"j", b"k", b"hab"])
+        m2 = real[:rdl_off] + struct.pack(">H", len(pre) + len(lab)) + pre + lab
+        return m2
     if k == 6 and rr.names:                             # name in rdata replaced by pointer to == len / beyond
         newlen = rr.rdoff + 2 + (2 if rr.type == D.T_MX else 6 if rr.type == D.T_SRV else 0)
         pre = real[rr.rdoff:newlen - 2]
